@@ -23,6 +23,16 @@ type chunkReader struct {
 	withData bool // the final bytes are returned TOGETHER with the final error (io.Reader allows it)
 	consumed int
 	reads    int
+	empties  int
+}
+
+// emptiesOf reports how many (0, nil) reads the transport has answered so far (0 for other readers): a caller
+// loop that walks a list of buffer sizes does not count a read the transport left empty
+func emptiesOf(src io.Reader) int {
+	if c, ok := src.(*chunkReader); ok {
+		return c.empties
+	}
+	return 0
 }
 
 func (r *chunkReader) Read(p []byte) (int, error) {
@@ -42,10 +52,12 @@ func (r *chunkReader) Read(p []byte) (int, error) {
 			r.cur = r.rep
 		case r.i < len(r.sizes):
 			r.cur = r.sizes[r.i]
-			if r.cur <= 0 {
-				r.cur = 1
-			}
 			r.i++
+			if r.cur < 0 {
+				r.cur = 0
+				r.empties++
+				return 0, nil
+			}
 		default:
 			r.cur = len(r.data)
 		}
@@ -85,7 +97,14 @@ func newChunkReader(data []byte, spec string, tail string) *chunkReader {
 		}
 	default:
 		for _, s := range strings.Split(spec, ",") {
+			if s == "z" { // an empty read: (0, nil), legal for an io.Reader
+				r.sizes = append(r.sizes, -1)
+				continue
+			}
 			v, _ := strconv.Atoi(s)
+			if v <= 0 {
+				v = 1
+			}
 			r.sizes = append(r.sizes, v)
 		}
 	}
